@@ -194,7 +194,7 @@ ANN_PASSIVE = ['resistor', 'resistor', 'conductance', 'impedance', 'capacitor', 
 
 @st.composite
 def annotation_case(draw):
-    prog = draw(schem.drawing(min_symbols=3, max_symbols=5, symbol_pool=ANN_PASSIVE,
+    prog = draw(schem.drawing(min_symbols=3, max_symbols=5, symbol_pool=ANN_PASSIVE, label_on_ground=False,
                               sources_v=['voltage_source', 'ac_voltage_source', 'complex_voltage_source'],
                               sources_i=['current_source', 'ac_current_source']))
     w0 = next((it['args']['w'] for it in prog['items'] if 'args' in it and 'w' in it['args']), 100.0)
